@@ -1020,3 +1020,77 @@ def canary(which="overlap"):
         o = H.identity(f"canary.{which}.wick.twice", out, spec * 2, t0=t0)
     o["kind"] = "canary"
     return [o]
+
+
+# ====================================================================================== C14: restricted == unrestricted descriptions
+def ru_trial(what, norb, nocc, nchol=1):
+    """C14.ru.<what>: rhf trial on a restricted walker == uhf trial (same orbitals for both spins) on [w, w]"""
+    t0 = time.time()
+    H.setup_repo()
+    from ad_afqmc import wavefunctions as wf
+    c = Case("rhf", norb, (nocc, nocc), nchol=nchol, restricted=True, spin_dep=False)
+    u = wf.uhf(norb, (nocc, nocc))
+    wave_u = dict(mo_coeff=[c.wave["mo_coeff"], c.wave["mo_coeff"]])
+    ws, wx = c.sx((c.w,))
+    wrs, wrx = c.sx(c.wave)
+    wus, wux = c.sx(wave_u)
+    hs, hx = c.sx(c.ham0)
+    name = f"C14.ru.{what}[norb={norb},nocc={nocc},nchol={nchol}]"
+    fns = []
+    if what == "overlap":
+        a, _ = evaluate(c.inp.sp, c.trial._calc_overlap_restricted, (ws[0], wrs), (wx[0], wrx))
+        b, _ = evaluate(c.inp.sp, u._calc_overlap, (ws[0], ws[0], wus), (wx[0], wx[0], wux))
+        fns = ["wavefunctions.rhf._calc_overlap_restricted", "wavefunctions.uhf._calc_overlap"]
+    else:
+        hr_x = c.trial._build_measurement_intermediates(dict(hx), wrx)
+        hu_x = u._build_measurement_intermediates(dict(hx), wux)
+        hr_s, _ = evaluate(c.inp.sp, c.trial._build_measurement_intermediates, (hs, wrs), (hx, wrx))
+        hu_s, _ = evaluate(c.inp.sp, u._build_measurement_intermediates, (hs, wus), (hx, wux))
+        base = {"energy": "_calc_energy", "fb": "_calc_force_bias"}[what]
+        a, _ = evaluate(c.inp.sp, getattr(c.trial, base + "_restricted"), (ws[0], hr_s, wrs), (wx[0], hr_x, wrx))
+        b, _ = evaluate(c.inp.sp, getattr(u, base), (ws[0], ws[0], hu_s, wus), (wx[0], wx[0], hu_x, wux))
+        fns = [f"wavefunctions.rhf.{base}_restricted", f"wavefunctions.uhf.{base}"]
+    return [H.identity(name, a, b, functions=fns, inputs=c.inp, t0=t0, note="closed shell: restricted description == unrestricted description with equal spin blocks")]
+
+
+def ru_propagation(norb, nocc, nchol=1):
+    """C14.ru.prop: restricted and unrestricted _build_propagation_intermediates agree when h1[0]=h1[1], rdm1[0]=rdm1[1]
+    (the argument handed to expm is compared: expm is an uninterpreted function)"""
+    t0 = time.time()
+    H.setup_repo()
+    import jax.numpy as jnp
+    from ad_afqmc import propagation, wavefunctions as wf
+    inp = H.Inputs(4)
+    hh0, hha, hla, hr = inp.declare("h0", ()), inp.declare("ha", (norb, norb)), inp.declare("la", (nchol, norb, norb)), inp.declare("ra", (norb, norb))
+    inp.build()
+    sp = inp.sp
+    h1 = hha["V"].map(lambda a: np.stack([a + a.T, a + a.T]))
+    L = hla["V"].map(lambda a: (a + np.swapaxes(a, -1, -2)).reshape(nchol, norb * norb))
+    rdm = hr["V"].map(lambda a: np.stack([a + a.T, a + a.T]))
+    zero = H.V(_lift(sp, np.array(0.0)), np.array(0.0))
+    ham = dict(h0=hh0["V"], h1=h1, chol=L, ene0=zero)
+    wave = dict(rdm1=rdm)
+    import jax
+    leaves = lambda t, f: jax.tree_util.tree_map(f, t, is_leaf=lambda x: isinstance(x, H.V))
+    hs, hx = leaves(ham, lambda v: v.s), leaves(ham, lambda v: jnp.asarray(v.x))
+    ws_, wx_ = leaves(wave, lambda v: v.s), leaves(wave, lambda v: jnp.asarray(v.x))
+    trial = wf.rhf(norb, (nocc, nocc))
+
+    def h_expm(it, e, ins):
+        return [ins[0]]          # uninterpreted function of its argument: compare the arguments
+    pr, pu = propagation.propagator_restricted(dt=0.01, n_walkers=2), propagation.propagator_unrestricted(dt=0.01, n_walkers=2)
+    fr = lambda h, w: pr._build_propagation_intermediates(h, trial, w)
+    fu = lambda h, w: pu._build_propagation_intermediates(h, wf.uhf(norb, (nocc, nocc)), w)
+    a, ita = evaluate(sp, fr, (hs, ws_), (dict(hx), wx_), intercept={"expm": h_expm})
+    b, itb = evaluate(sp, fu, (hs, ws_), (dict(hx), wx_), intercept={"expm": h_expm})
+    out = []
+    name = f"C14.ru.prop[norb={norb},nchol={nchol}]"
+    fns = ["propagation.propagator_restricted._build_propagation_intermediates", "propagation.propagator_unrestricted._build_propagation_intermediates"]
+    if "expm" not in ita.calls or "expm" not in itb.calls:
+        return [ob(name, UNDECIDED, kind="bounded", detail="expm callee not seen", functions=fns)]
+    out.append(H.identity(name + ".mf_shifts", a["mf_shifts"], b["mf_shifts"], functions=fns, inputs=inp, t0=t0))
+    out.append(H.identity(name + ".h0_prop", a["h0_prop"], b["h0_prop"], functions=fns, inputs=inp, t0=t0))
+    eb = np.asarray(b["exp_h1"], dtype=object)
+    out.append(H.identity(name + ".exp_h1.up", a["exp_h1"], eb[0], functions=fns, inputs=inp, t0=t0, note="same expm argument for the up block"))
+    out.append(H.identity(name + ".exp_h1.dn", a["exp_h1"], eb[1], functions=fns, inputs=inp, t0=t0, note="same expm argument for the down block"))
+    return out
